@@ -133,6 +133,35 @@ func bin(op string, a, b *Ex) *Ex {
 			}
 		}
 	}
+	isK := func(e *Ex, k int64) bool { return e.isLit() && e.Val.IsInt64() && e.Val.Int64() == k }
+	switch op {
+	case "+":
+		if isK(a, 0) {
+			return b
+		}
+		if isK(b, 0) {
+			return a
+		}
+	case "-":
+		if isK(b, 0) {
+			return a
+		}
+	case "*":
+		if isK(a, 1) {
+			return b
+		}
+		if isK(b, 1) {
+			return a
+		}
+	case "tdiv":
+		if isK(b, 1) {
+			return a
+		}
+	case "shl", "shr":
+		if isK(b, 0) {
+			return a
+		}
+	}
 	if a.Op == "blit" && b.Op == "blit" {
 		switch op {
 		case "and":
@@ -412,16 +441,20 @@ type trans struct {
 }
 
 type transArea struct {
-	name  string
-	funcs []TFunc
-	done  map[string]*tresult // key dir|recv|name
+	name    string
+	funcs   []TFunc
+	imports map[string]bool // other areas whose defs are called
 }
 
 type tresult struct {
-	spec    TFunc
-	params  []*tparam
-	resBool []bool
+	area     string
+	spec     TFunc
+	params   []*tparam
+	resBool  []bool
+	hasPanic bool
 }
+
+func (r *tresult) qualified() string { return "Uquic.Gen.Trans" + r.area + "." + r.spec.leanName() }
 
 func tkey(dir, recv, name string) string { return dir + "|" + recv + "|" + name }
 
@@ -963,6 +996,19 @@ func (t *trans) call(st *tstate, call *ast.CallExpr) []*Ex {
 				}
 				return []*Ex{r}
 			}
+			if b.Name() == "len" && len(call.Args) == 1 {
+				// the length of a slice/string-typed field: a non-negative input
+				base := t.expr(st, call.Args[0])
+				if base.Op != "path" || len(base.Fields) == 0 {
+					t.failf(call.Pos(), "len of something that is not a field")
+				}
+				p := &Ex{Op: "path", Root: base.Root, Fields: append(append([]string{}, base.Fields[:len(base.Fields)-1]...), base.Fields[len(base.Fields)-1]+"_len")}
+				v := t.pathParam(p, types.Typ[types.Int], call.Pos())
+				if q, ok := t.pidx[v.Name]; ok {
+					q.lo = big.NewInt(0)
+				}
+				return []*Ex{v}
+			}
 			t.failf(call.Pos(), "builtin %s", b.Name())
 		}
 	}
@@ -1092,7 +1138,11 @@ func (t *trans) call(st *tstate, call *ast.CallExpr) []*Ex {
 				}
 			}
 		}
-		return []*Ex{{Op: "call", Name: r.spec.leanName(), Bool: r.resBool[0], A: cargs}}
+		if r.hasPanic {
+			g := &Ex{Op: "call", Name: r.qualified() + "_panics", Bool: true, A: cargs}
+			t.guards = append(t.guards, andAll(append(append([]*Ex{}, t.gctx...), g)))
+		}
+		return []*Ex{{Op: "call", Name: r.qualified(), Bool: r.resBool[0], A: cargs}}
 	}
 	// otherwise inline the callee's body
 	return t.inline(st, call, dir, rname, fn, recvVal, args)
@@ -1324,6 +1374,41 @@ func (t *trans) bind(tree Tree, k func(*tstate) Tree) Tree {
 	return tree
 }
 
+// known reports whether the path condition already decides c (syntactically).
+func (t *trans) known(c *Ex) (bool, bool) {
+	if c.Op == "blit" {
+		return true, c.BVal
+	}
+	pos, neg := renderProp(c), renderProp(not(c))
+	var facts []string
+	var add func(e *Ex)
+	add = func(e *Ex) {
+		if e.Op == "and" {
+			add(e.A[0])
+			add(e.A[1])
+			return
+		}
+		if e.Op == "not" && e.A[0].Op == "or" {
+			add(not(e.A[0].A[0]))
+			add(not(e.A[0].A[1]))
+			return
+		}
+		facts = append(facts, renderProp(e))
+	}
+	for _, e := range t.pc {
+		add(e)
+	}
+	for _, f := range facts {
+		if f == pos {
+			return true, true
+		}
+		if f == neg {
+			return true, false
+		}
+	}
+	return false, false
+}
+
 func mkIf(c *Ex, a, b Tree) Tree {
 	if c.Op == "blit" {
 		if c.BVal {
@@ -1360,6 +1445,9 @@ func (t *trans) guarded(f func() Tree) Tree {
 	}
 	g := blit(false)
 	for _, x := range gs {
+		if k, v := t.known(x); k {
+			x = blit(v)
+		}
 		g = bin("or", g, x)
 	}
 	return mkIf(g, &TPanic{}, tr)
@@ -1638,6 +1726,9 @@ func (t *trans) ifStmt(fc *fnCtx, x *ast.IfStmt, st *tstate) Tree {
 			if !c.Bool {
 				t.failf(x.Cond.Pos(), "non-boolean condition")
 			}
+			if k, v := t.known(c); k {
+				c = blit(v)
+			}
 			if c.Op == "blit" {
 				if c.BVal {
 					return t.exec(fc, x.Body.List, st)
@@ -1728,8 +1819,34 @@ func (t *trans) switchStmt(fc *fnCtx, x *ast.SwitchStmt, st *tstate) Tree {
 
 // ---------------------------------------------------------------- one function → Lean text
 
+type regEntry struct {
+	area string
+	spec TFunc
+	res  *tresult
+	busy bool
+	err  error
+}
+
+// every function registered for translation, in any area (key dir|recv|name)
+var transRegistry = map[string]*regEntry{}
+
+// lookup finds a function of the translated set; a callee of another area (or one registered later in
+// this area) is translated on demand into a scratch buffer just to learn its signature.
 func (a *transArea) lookup(c *Ctx, dir, recv, name string) *tresult {
-	return a.done[tkey(dir, recv, name)]
+	e := transRegistry[tkey(dir, recv, name)]
+	if e == nil || e.busy {
+		return nil
+	}
+	if e.res == nil && e.err == nil {
+		e.busy = true
+		scratch := &LeanFile{}
+		e.res, e.err = translateFunc(c, &transArea{name: e.area}, e.spec, scratch)
+		e.busy = false
+	}
+	if e.res != nil && e.area != a.name {
+		a.imports[e.area] = true
+	}
+	return e.res
 }
 
 func renderTree(tree Tree, emit func(*TRet) string, dflt string, ind string) string {
@@ -1832,6 +1949,47 @@ func translateFunc(c *Ctx, area *transArea, spec TFunc, w *LeanFile) (res *tresu
 	t.resBool = nres
 	tree := t.execBody(st, fd, nres)
 
+	// declared parameters the body never reads are dropped (so `_ T` ↔ a named unused parameter is harmless)
+	used := map[string]bool{}
+	var walkEx func(e *Ex)
+	walkEx = func(e *Ex) {
+		if e == nil {
+			return
+		}
+		if e.Op == "var" {
+			used[e.Name] = true
+		}
+		for _, a := range e.A {
+			walkEx(a)
+		}
+	}
+	var walkTree func(tr Tree)
+	walkTree = func(tr Tree) {
+		switch x := tr.(type) {
+		case *TIf:
+			walkEx(x.c)
+			walkTree(x.a)
+			walkTree(x.b)
+		case *TRet:
+			for _, v := range x.vals {
+				walkEx(v)
+			}
+			for k, v := range x.st.store {
+				used[leanVar(k)] = true
+				walkEx(v)
+			}
+		}
+	}
+	walkTree(tree)
+	safeText := strings.Join(t.safe, " ")
+	var kept []*tparam
+	for _, p := range t.params {
+		if p.declIdx >= -1 && !used[p.name] && !strings.Contains(safeText, p.name) {
+			continue
+		}
+		kept = append(kept, p)
+	}
+	t.params = kept
 	// parameter order: receiver value, declared parameters, then field/opaque inputs sorted by name
 	sort.SliceStable(t.params, func(i, j int) bool {
 		a, b := t.params[i], t.params[j]
@@ -1945,28 +2103,43 @@ func translateFunc(c *Ctx, area *transArea, spec TFunc, w *LeanFile) (res *tresu
 	P("def %s_safe%s : Prop :=\n  %s", name, sig, safe)
 	w.b.WriteString(out.String())
 	w.P("")
-	return &tresult{spec: spec, params: t.params, resBool: nres}, nil
+	return &tresult{area: area.name, spec: spec, params: t.params, resBool: nres, hasPanic: treeHasPanic(tree)}, nil
 }
 
 // registerTrans registers the extractor Trans<area>: every function is translated independently; a
 // function outside the subset is reported and makes the module fail (after all others were emitted).
 func registerTrans(area string, funcs ...TFunc) {
+	for _, f := range funcs {
+		transRegistry[tkey(f.Dir, f.Recv, f.Name)] = &regEntry{area: area, spec: f}
+	}
 	register("Trans"+area, func(c *Ctx, w *LeanFile) error {
-		w.Imports = append(w.Imports, "Uquic.Trans.Prelude")
 		w.P("set_option linter.unusedVariables false")
 		w.P("")
-		a := &transArea{name: area, funcs: funcs, done: map[string]*tresult{}}
+		a := &transArea{name: area, funcs: funcs, imports: map[string]bool{}}
 		var errs []string
 		for _, f := range funcs {
+			e := transRegistry[tkey(f.Dir, f.Recv, f.Name)]
+			e.busy = true
 			r, err := translateFunc(c, a, f, w)
+			e.busy = false
 			if err != nil {
 				msg := fmt.Sprintf("%s %s.%s: %v", f.Dir, f.Recv, f.Name, err)
 				w.P("-- NOT TRANSLATED: %s", msg)
 				w.P("")
 				errs = append(errs, msg)
+				e.err = err
 				continue
 			}
-			a.done[tkey(f.Dir, f.Recv, f.Name)] = r
+			e.res = r
+		}
+		w.Imports = append(w.Imports, "Uquic.Trans.Prelude")
+		var ims []string
+		for k := range a.imports {
+			ims = append(ims, k)
+		}
+		sort.Strings(ims)
+		for _, k := range ims {
+			w.Imports = append(w.Imports, "Uquic.Generated.Trans"+k)
 		}
 		if len(errs) > 0 {
 			return fmt.Errorf("translator: %s", strings.Join(errs, "; "))
